@@ -150,6 +150,14 @@ func (g *G) OverloadItem() Item {
 		if isMethod {
 			fmt.Fprintf(&x, "fmt.Println(\"  ->\", recv.%s(%s))\n", id, args(tuples[i]))
 			fmt.Fprintf(&gg, "fmt.Println(\"  ->\", recv.%s_c%d(%s))\n", id, i, args(tuples[i]))
+		} else if g.Chance(35, "cmdcall") && !strings.HasPrefix(args(tuples[i]), "vfn") {
+			// command-style call of the overloaded name (result discarded)
+			fmt.Fprintf(&x, "%s %s\n", id, args(tuples[i]))
+			fmt.Fprintf(&gg, "%s_c%d(%s)\n", id, i, args(tuples[i]))
+		} else if g.Chance(25, "inlambda") {
+			// the call sits in a lambda (compiled with the enclosing call's candidates)
+			fmt.Fprintf(&x, "each [1], _x => {\n\tfmt.Println(\"  ->\", %s(%s))\n}\n", id, args(tuples[i]))
+			fmt.Fprintf(&gg, "each([]int{1}, func(_x int) {\n\tfmt.Println(\"  ->\", %s_c%d(%s))\n})\n", id, i, args(tuples[i]))
 		} else {
 			fmt.Fprintf(&x, "fmt.Println(\"  ->\", %s(%s))\n", id, args(tuples[i]))
 			fmt.Fprintf(&gg, "fmt.Println(\"  ->\", %s_c%d(%s))\n", id, i, args(tuples[i]))
@@ -219,7 +227,8 @@ func (g *G) operatorItem(id string) Item {
 
 // OverloadProgram draws a program of n C10 items.
 func OverloadProgram(g *G, n int) *Program {
-	p := &Program{}
+	each := "func each(xs []int, f func(int)) {\n\tfor _, x := range xs {\n\t\tf(x)\n\t}\n}\n"
+	p := &Program{DeclsX: []string{each}, DeclsG: []string{each}}
 	for i := 0; i < n; i++ {
 		p.Items = append(p.Items, g.OverloadItem())
 	}
